@@ -603,3 +603,60 @@ pub fn noncontractive_alias_cycle(fs: &Fs) -> Option<(String, String)> {
     }
     None
 }
+
+// ---------------------------------------------------------------------------------------------
+// Names requested in `buildParsers<{ A: ..., B: ... }>()` (None when the argument is not a literal)
+// ---------------------------------------------------------------------------------------------
+pub fn build_parsers_keys(path: &str, content: &str) -> Option<Vec<String>> {
+    use swc_ecma_visit::{Visit, VisitWith};
+    struct V(Option<Vec<String>>, u32);
+    impl Visit for V {
+        fn visit_call_expr(&mut self, n: &CallExpr) {
+            let name = match &n.callee {
+                Callee::Expr(e) => match &**e {
+                    Expr::Ident(i) => Some(i.sym.to_string()),
+                    Expr::Member(m) => match &m.prop {
+                        MemberProp::Ident(i) => Some(i.sym.to_string()),
+                        _ => None,
+                    },
+                    _ => None,
+                },
+                _ => None,
+            };
+            if name.as_deref() == Some("buildParsers") {
+                self.1 += 1;
+                if let Some(args) = &n.type_args {
+                    if let Some(first) = args.params.first() {
+                        if let TsType::TsTypeLit(l) = &**first {
+                            let mut keys = vec![];
+                            for m in &l.members {
+                                if let TsTypeElement::TsPropertySignature(p) = m {
+                                    match &*p.key {
+                                        Expr::Ident(i) => keys.push(i.sym.to_string()),
+                                        Expr::Lit(Lit::Str(s)) => keys.push(s.value.to_string_lossy().to_string()),
+                                        _ => return,
+                                    }
+                                } else {
+                                    return;
+                                }
+                            }
+                            self.0 = Some(keys);
+                        }
+                    }
+                }
+            }
+            n.visit_children_with(self);
+        }
+    }
+    let cm: Lrc<SourceMap> = Default::default();
+    let fm = cm.new_source_file(FileName::Custom(path.to_string()).into(), content.to_string());
+    let mut errs = vec![];
+    let m = parse_file_as_module(&fm, Syntax::Typescript(syntax_for(path)), EsVersion::latest(), None, &mut errs).ok()?;
+    let mut v = V(None, 0);
+    m.visit_with(&mut v);
+    if v.1 == 1 {
+        v.0
+    } else {
+        None
+    }
+}
